@@ -57,10 +57,11 @@ VARIABLES
   \* history variables (observation only)
   usedOrd,   \* [ordinal -> job signature] for ordinals handed out and not forgotten by a Kill
   idleSteps, \* [Ens -> Nat] number of completed steps at which the ensemble was idle
-  completed  \* number of Complete actions since the very beginning
+  completed, \* number of Complete actions since the very beginning
+  presort    \* the slot arrangement, weights and locks the last completed step handed to the re-sorting
 
 vars == <<slot, wt, lock, jobs, lockedSeq, locked0, cstep, tsteps, trajnum, started, pend, phase,
-          ordn, engOcc, jobEng, frac, rfile, rows, nrestart, usedOrd, idleSteps, completed>>
+          ordn, engOcc, jobEng, frac, rfile, rows, nrestart, usedOrd, idleSteps, completed, presort>>
 
 ---------------------------------------------------------------------------
 WM(sl, w)     == [i \in Ens |-> w[sl[i]]]                  \* weight matrix, rows by slot
@@ -103,6 +104,7 @@ Init ==
   /\ jobEng = [p \in Pins |-> [t \in EngTypes |-> 0]]
   /\ frac = ZeroFrac /\ rfile = NoRec /\ rows = <<>> /\ nrestart = 0
   /\ usedOrd = [o \in {} |-> <<>>] /\ idleSteps = [e \in Ens |-> 0] /\ completed = 0
+  /\ presort = <<>>
 
 ---------------------------------------------------------------------------
 (* engine hand-out (factory.assign_engines): release what the pin held, then *)
@@ -167,14 +169,14 @@ InitPick(pin) ==
   /\ lockedSeq' = Append(lockedSeq, pin)
   /\ started' = started + 1
   /\ phase' = IF started + 1 = Workers THEN "loop" ELSE "init"
-  /\ UNCHANGED <<wt, cstep, tsteps, trajnum, pend, frac, rfile, rows, nrestart, idleSteps, completed>>
+  /\ UNCHANGED <<wt, cstep, tsteps, trajnum, pend, frac, rfile, rows, nrestart, idleSteps, completed, presort>>
 
 (* nothing to do at all: initiate() returns False at once *)
 InitSkip ==
   /\ phase = "init" /\ started = 0 /\ ~(cstep < tsteps)
   /\ phase' = "loop"
   /\ UNCHANGED <<slot, wt, lock, jobs, lockedSeq, locked0, cstep, tsteps, trajnum, started, pend, ordn,
-                 engOcc, jobEng, frac, rfile, rows, nrestart, usedOrd, idleSteps, completed>>
+                 engOcc, jobEng, frac, rfile, rows, nrestart, usedOrd, idleSteps, completed, presort>>
 
 LoopPick(pin) ==
   /\ phase = "loop" /\ pend = pin
@@ -182,7 +184,7 @@ LoopPick(pin) ==
   /\ lockedSeq' = Append(lockedSeq, pin)
   /\ pend' = None
   /\ UNCHANGED <<wt, locked0, cstep, tsteps, trajnum, started, phase, frac, rfile, rows, nrestart,
-                 idleSteps, completed>>
+                 idleSteps, completed, presort>>
 
 ---------------------------------------------------------------------------
 (* arrangements the re-sorting may produce: busy slots untouched, every idle *)
@@ -231,6 +233,7 @@ Complete(pin) ==
                  newrows == IF acc THEN [k \in 1..nE |-> [pn |-> j.pns[k], frac |-> fr1[j.pns[k]]]] ELSE <<>>
                  fr2 == IF acc THEN [p \in Pn |-> IF p \in JobPns(j) THEN ZeroFrac[p] ELSE fr1[p]] ELSE fr1
              IN /\ wt' = w1 /\ trajnum' = tn1 /\ lock' = lk1
+                /\ presort' = [slot |-> s1, lock |-> lk1, rows |-> [e \in Ens |-> w1[s1[e]]]]
                 \* the re-sorting may produce any valid arrangement; if none exists (or P is
                 \* undefined) the sampler is stuck - made visible instead of disabling the step
                 /\ IF den = 0 \/ Arrangements(s1, lk1, w1) = {}
@@ -251,14 +254,14 @@ Finish ==
   /\ phase' = "done"
   /\ rfile' = RecordOf(slot, lockedSeq, jobs, cstep, trajnum, frac, ordn)
   /\ UNCHANGED <<slot, wt, lock, jobs, lockedSeq, locked0, cstep, tsteps, trajnum, started, pend, ordn,
-                 engOcc, jobEng, frac, rows, nrestart, usedOrd, idleSteps, completed>>
+                 engOcc, jobEng, frac, rows, nrestart, usedOrd, idleSteps, completed, presort>>
 
 (* the main process dies between two of the actions above (finer crash points: Crash.tla) *)
 Kill ==
   /\ phase \in {"init", "loop"} /\ nrestart < MaxRestarts /\ rfile # NoRec
   /\ phase' = "dead"
   /\ UNCHANGED <<slot, wt, lock, jobs, lockedSeq, locked0, cstep, tsteps, trajnum, started, pend, ordn,
-                 engOcc, jobEng, frac, rfile, rows, nrestart, usedOrd, idleSteps, completed>>
+                 engOcc, jobEng, frac, rfile, rows, nrestart, usedOrd, idleSteps, completed, presort>>
 
 Restart ==
   /\ phase \in {"done", "dead"} /\ rfile # NoRec /\ nrestart < MaxRestarts
@@ -279,7 +282,7 @@ Restart ==
   \* paths numbered after the last restart record are orphaned on disk; the counters go back
   /\ wt' = [p \in Pn |-> IF p < rfile.trajnum THEN wt[p] ELSE [e \in Ens |-> 0]]
   /\ rows' = rows
-  /\ UNCHANGED <<rfile, idleSteps, completed>>
+  /\ UNCHANGED <<rfile, idleSteps, completed, presort>>
 
 Next == \/ \E p \in Pins : InitPick(p) \/ LoopPick(p) \/ Complete(p)
         \/ InitSkip \/ Finish \/ Kill \/ Restart
